@@ -1,0 +1,18 @@
+//go:build verif
+
+package common
+
+// VerifReseedCPRNG replaces the process-wide generator by one keyed with seed
+// and a zero counter (simulation harness only).
+func VerifReseedCPRNG(seed *[32]byte) {
+	c, err := NewCPRNG(seed)
+	if err != nil {
+		panic(err)
+	}
+	globalCprng = c
+}
+
+// VerifCPRNGRead reads from the process-wide generator.
+func VerifCPRNGRead(buf []byte) (int, error) {
+	return globalCprng.Read(buf)
+}
